@@ -20,7 +20,7 @@ Theorem dec_enc : forall fuel f m v b r,
   dec fuel f (inp m b r) = Some (v, out m r).
 Proof.
   induction fuel as [|fuel IH]; intros f m v b r Hwf He Hf; [lia|].
-  destruct f as [n|n|c| | |fa fb|n fa|fa|fa].
+  destruct f as [n|n|c| | |fa fb|n fa|fa|fa|fa].
   - (* FBE *)
     destruct v as [z| | |]; try discriminate. cbn in He.
     destruct ((0 <=? z) && (z <? 256 ^ Z.of_nat n)) eqn:E; [|discriminate]. injection He as <-.
@@ -92,6 +92,21 @@ Proof.
     { destruct m; cbn [inp out]; [apply app_assoc_reverse| rewrite app_nil_r; reflexivity]. }
     rewrite Hin in *.
     rewrite new_len_roundtrip by lia. rewrite Nat2Z.id.
+    rewrite app_length. replace (Nat.leb (length p) (length p + length (out m r))) with true by (symmetry; apply Nat.leb_le; lia).
+    rewrite firstn_app_exact, skipn_app_exact by reflexivity.
+    pose proof (IH fa false v p [] Hw Ea) as K. cbn [inp out] in K. rewrite K.
+    + reflexivity.
+    + rewrite !app_length in Hf. lia.
+  - (* FSubLen *)
+    cbn [enc] in He. destruct (enc fa v) as [p|] eqn:Ea; [|discriminate].
+    destruct (Z.of_nat (length p) <? 4294967296) eqn:E; [|discriminate]. injection He as <-.
+    apply Z.ltb_lt in E. cbn [wf] in Hwf. cbn [depth] in Hf.
+    assert (Hw : wf false fa = true) by (destruct m; exact Hwf).
+    cbn [dec].
+    assert (Hin : inp m (sub_length (Z.of_nat (length p)) ++ p) r = sub_length (Z.of_nat (length p)) ++ (p ++ out m r)).
+    { destruct m; cbn [inp out]; [apply app_assoc_reverse| rewrite app_nil_r; reflexivity]. }
+    rewrite Hin in *.
+    rewrite sub_len_roundtrip by lia. rewrite Nat2Z.id.
     rewrite app_length. replace (Nat.leb (length p) (length p + length (out m r))) with true by (symmetry; apply Nat.leb_le; lia).
     rewrite firstn_app_exact, skipn_app_exact by reflexivity.
     pose proof (IH fa false v p [] Hw Ea) as K. cbn [inp out] in K. rewrite K.
